@@ -63,6 +63,7 @@ class Node:
             individual_address_table={IndividualAddress(a): s for a, s in (table if table is not None else senders).items()},
             last_sequence_number_sending=last)
         self.xknx.cemi_handler.data_secure = self.make_ds()
+        self._senders = senders
         self.delivered: list[dict[str, Any]] = []
         self.key_issues: list[dict[str, Any]] = []
         self.sent_raw: list[bytes] = []
@@ -87,6 +88,21 @@ class Node:
         self.xknx.management = RecMgmt(self.xknx)
         self.xknx.telegram_queue.register_telegram_received_cb(self._on_tg)
         self.xknx.telegram_queue.register_data_secure_group_key_issue_cb(self._on_issue)
+
+    def restart_data_secure(self):
+        """What KNXIPInterface._start() does on every start of the same XKNX object: Data Secure is set up again from the keyring
+        (here: a stand-in answering the two questions DataSecure.init_from_keyring asks)."""
+        from xknx.telegram import GroupAddress, IndividualAddress
+        node = self
+
+        class _Keyring:
+            def get_data_secure_group_keys(self):
+                return {GroupAddress(g): k for g, k in node.keys.items()}
+
+            def get_data_secure_senders(self):
+                return {IndividualAddress(a): s for a, s in node._senders.items()}
+
+        self.xknx.cemi_handler.data_secure_init(_Keyring())
 
     def _on_tg(self, tg):
         try:
